@@ -205,8 +205,8 @@ func normalizeWorld(w *World, verif string) (*World, *normLog) {
 			}
 			sort.Strings(lg.NewFuncs)
 		}
-		if len(nf) == 0 && round == 1 {
-			break // every function is in the reviewed table: the pass is the identity
+		if len(nf) == 0 && round == 1 && !hasLocalClosure(cur) {
+			break // every function is in the reviewed table and no closure is bound to a local: the pass is the identity
 		}
 		// later rounds also run without new functions: substitutions of earlier rounds can leave function literals that
 		// are called where they are written, which only a re-type-checked tree lets the pass reduce
@@ -485,4 +485,29 @@ func (n *normalizer) printFile(pkg *packages.Package, file *ast.File, path strin
 		return nil, nil, fmt.Errorf("rewritten file does not parse: %v", err)
 	}
 	return out.Bytes(), lines, nil
+}
+
+// hasLocalClosure: some function of the module binds a function literal to a local with := (a local helper; the
+// reviewed tree has none).
+func hasLocalClosure(w *World) bool {
+	found := false
+	for _, pkg := range w.Pkgs {
+		if !strings.HasPrefix(pkg.PkgPath, modPath) || strings.HasSuffix(pkg.PkgPath, "/internal/testutils") {
+			continue
+		}
+		for _, file := range pkg.Syntax {
+			if strings.HasPrefix(filepath.Base(w.Fset.File(file.Pos()).Name()), "yarnspinner") {
+				continue
+			}
+			ast.Inspect(file, func(n ast.Node) bool {
+				if as, ok := n.(*ast.AssignStmt); ok && as.Tok == token.DEFINE && len(as.Lhs) == 1 && len(as.Rhs) == 1 {
+					if _, ok := as.Rhs[0].(*ast.FuncLit); ok {
+						found = true
+					}
+				}
+				return !found
+			})
+		}
+	}
+	return found
 }
